@@ -771,6 +771,203 @@ def judge_homhist(inp, obs, lr):
     return None
 
 
+# ------------------------------------------------------------------------------------------------
+# generic defences G2-G4: input/output isolation, cross-call independence, dtype order, extreme scales.
+# Every call in a history is compared with an INDEPENDENT reference written here (not with another library call),
+# so a poisoned module-level cache or an aliased array cannot hide on both sides.
+# ------------------------------------------------------------------------------------------------
+def _comb(n, k):
+    return math.comb(n, k) if 0 <= k <= n else 0
+
+
+def ref_irrep(A, n):
+    a, b, c, d = A[0, 0], A[0, 1], A[1, 0], A[1, 1]
+    r = n - 1
+    out = np.zeros((n, n), dtype=np.result_type(A.dtype, float))
+    for k in range(n):
+        for j in range(n):
+            for i in range(max(0, j - r + k), min(j, k) + 1):
+                out[j, k] += _comb(k, i) * _comb(r - k, j - i) * a ** i * c ** (k - i) * b ** (j - i) * d ** (r - k - j + i)
+    return out
+
+
+def ref_so21(A):
+    a, b, c, d = A[0, 0], A[0, 1], A[1, 0], A[1, 1]
+    return np.array([[(a * a + b * b + c * c + d * d) / 2, (b * b + d * d - a * a - c * c) / 2, a * b + c * d],
+                     [(c * c + d * d - a * a - b * b) / 2, (a * a + d * d - b * b - c * c) / 2, c * d - a * b],
+                     [a * c + b * d, b * d - a * c, a * d + b * c]])
+
+
+def ref_gln(A):
+    return np.kron(A, np.linalg.inv(A).T)          # row-major vec: vec(A M B) = (A ⊗ Bᵀ) vec(M)
+
+
+def ref_sln(A):
+    n = A.shape[0]
+    Ai = np.linalg.inv(A)
+    idx = [(i, j) for i in range(n) for j in range(n)][:-1]
+    out = np.zeros((n * n - 1, n * n - 1), dtype=np.result_type(A.dtype, float))
+    for col, (i, j) in enumerate(idx):
+        Bm = np.zeros((n, n), dtype=out.dtype)
+        Bm[i, j] = 1
+        if i == j:
+            Bm[n - 1, n - 1] = -1
+        out[:, col] = (A @ Bm @ Ai).reshape(-1)[:-1]
+    return out
+
+
+def ref_slr(Zm):
+    return np.block([[Zm.real, -Zm.imag], [Zm.imag, Zm.real]])
+
+
+def ref_blk(A, dim):
+    k = A.shape[0]
+    out = np.eye(dim, dtype=A.dtype)
+    out[:k, :k] = A
+    return out
+
+
+def ref_so31(M):
+    hb = [np.array([[1, 0], [0, 0]], dtype=complex), np.array([[0, 0], [0, 1]], dtype=complex),
+          np.array([[0, 1], [1, 0]], dtype=complex), np.array([[0, 1j], [-1j, 0]])]
+    Hm = np.zeros((4, 4))
+    for j, h in enumerate(hb):
+        X = M @ h @ M.conj().T
+        Hm[:, j] = [X[0, 0].real, X[1, 1].real, X[0, 1].real, X[0, 1].imag]
+    B2 = np.array([[1., -1, 0, 0], [1, 1, 0, 0], [0, 0, 1, 0], [0, 0, 0, 1]])
+    return np.linalg.inv(B2) @ Hm @ B2
+
+
+ISO_MAPS = ["irrep", "so21", "gln", "sln", "slr", "blk", "so31", "pgl", "hom_gln", "hom_sln", "hom_irrep"]
+
+
+def iso_call(name, param, M):
+    base = name[4:] if name.startswith("hom_") else name
+    if name == "pgl":
+        return lie.o_to_pgl(M)
+    return map_fn(name, param)(M)
+
+
+def iso_ref(name, param, M):
+    base = name[4:] if name.startswith("hom_") else name
+    M64 = M.astype(complex) if np.iscomplexobj(M) else M.astype(float)
+    return {"irrep": lambda: ref_irrep(M64, param), "so21": lambda: ref_so21(M64), "gln": lambda: ref_gln(M64),
+            "sln": lambda: ref_sln(M64), "slr": lambda: ref_slr(M64.astype(complex)), "blk": lambda: ref_blk(M64, param),
+            "so31": lambda: ref_so31(M64.astype(complex))}[base]()
+
+
+def gen_iso(rng, n):
+    for _ in range(n):
+        steps = []
+        for _ in range(rng.randint(4, 8)):
+            name = rng.choice(ISO_MAPS)
+            base = name[4:] if name.startswith("hom_") else name
+            dt = rng.choice(["float64", "float64", "complex128", "int64", "float32"])
+            param = None
+            if base in ("irrep", "so21", "so31", "pgl"):
+                k = 2
+                if base == "irrep":
+                    param = rng.choice([2, 3, 4, 5])
+                if base in ("so21", "pgl") and dt == "complex128":
+                    dt = "float64"
+                if base == "so31":
+                    dt = rng.choice(["complex128", "float64", "int64"])
+                if dt == "int64":
+                    M = np.array(rng.choice([[[2, 3], [1, 2]], [[1, 1], [0, 1]], [[0, -1], [1, 0]], [[3, 2], [4, 3]], [[1, 0], [-2, 1]]]), dtype=float)
+                else:
+                    M = fsl2(rng, dt == "complex128", rng.choice(["sl2", "zero", "locus"]))
+            else:
+                k = rng.choice([2, 2, 3, 4])
+                if base == "slr" and dt in ("int64", "float32"):
+                    dt = "complex128"
+                if dt == "int64":
+                    while True:
+                        M = np.array([[rng.randint(-3, 3) for _ in range(k)] for _ in range(k)], dtype=float)
+                        if abs(np.linalg.det(M)) > 0.5:
+                            break
+                else:
+                    M = fgl(rng, k, dt == "complex128")
+                if base == "blk":
+                    param = k + rng.choice([0, 1, 2])
+            scale = None
+            if base in ("gln", "sln", "irrep") and dt in ("float64", "complex128") and rng.random() < 0.3:
+                scale = rng.choice([1e-100, 1e-8, 1e8, 1e100]) if base != "irrep" else rng.choice([1e-30, 1e-4, 1e4, 1e30])
+            steps.append({"map": name, "param": param, "dtype": dt, "M": enc_c(M), "scale": scale,
+                          "mutate": rng.choice(["zero", "add", "none"]), "view": rng.random() < 0.25})
+        yield {"steps": steps}
+
+
+def run_iso(inp):
+    worst = {"value": 0.0, "input_changed": False, "after_mutation": 0.0, "scale": 0.0, "where": None}
+    for idx, st in enumerate(inp["steps"]):
+        name, param = st["map"], st["param"]
+        base = name[4:] if name.startswith("hom_") else name
+        M = toarr(st["M"]).astype(st["dtype"])
+        if st["view"]:
+            big = np.zeros((M.shape[0] + 2, M.shape[1] + 1), dtype=M.dtype)
+            big[1:-1, 1:] = M
+            M = big[1:-1, 1:]                           # a non-contiguous view of a larger array
+        X = np.asarray(lie.sl2_to_so21(M.astype(float))) if name == "pgl" else M
+        snap = X.copy()
+        tol = 2e-4 if st["dtype"] == "float32" else 1e-8
+        def err_vs_ref(out):
+            out = np.asarray(out)
+            if out.dtype == object:
+                return float("inf")
+            if name == "pgl":
+                A = M.astype(float)
+                return float(min(np.max(np.abs(out - A)), np.max(np.abs(out + A))) / (1 + np.max(np.abs(A)))) / 100   # sqrt singularity: 1e-6
+            ref = iso_ref(name, param, snap)
+            if out.shape != ref.shape:
+                return float("inf")
+            return float(np.max(np.abs(out - ref)) / (1 + np.max(np.abs(ref)))) * (1e-8 / tol)
+        out = iso_call(name, param, X)
+        e = err_vs_ref(out)
+        if not e <= worst["value"]:
+            worst["value"], worst["where"] = e, [idx, name, st["dtype"]]
+        if not (X.shape == snap.shape and np.array_equal(X, snap)):
+            worst["input_changed"], worst["where"] = True, [idx, name, st["dtype"]]
+        # G2: mutate what the API returned, call again with the same input
+        if st["mutate"] != "none" and isinstance(out, np.ndarray) and out.dtype != object:
+            try:
+                if st["mutate"] == "zero":
+                    out[...] = 0
+                else:
+                    out += 1
+            except (ValueError, TypeError):
+                pass
+            e2 = err_vs_ref(iso_call(name, param, X))
+            if not e2 <= worst["after_mutation"]:
+                worst["after_mutation"], worst["where"] = e2, [idx, name, st["dtype"], "after mutating the returned array"]
+        # extreme scales: Ad(sA) = Ad(A), irrep(sA, n) = s^(n-1) irrep(A, n)
+        if st["scale"] is not None:
+            s_ = st["scale"]
+            o1 = np.asarray(iso_call(name, param, X.copy()))
+            o2 = np.asarray(iso_call(name, param, X * s_))
+            if base == "irrep":
+                o2 = o2 / s_ ** (param - 1)
+            es = float(np.max(np.abs(o2 - o1)) / (1 + np.max(np.abs(o1)))) if np.all(np.isfinite(o2)) else float("inf")
+            if not es <= worst["scale"]:
+                worst["scale"], worst["where"] = es, [idx, name, st["dtype"], "scale %g" % s_]
+    return worst
+
+
+def judge_iso(inp, obs, lr):
+    tags0 = {"history": True}
+    if "exc" in obs:
+        return {"expected": "every call of the history succeeds", "observed": obs, "tags": dict(tags0, exc=obs["exc"])}
+    if obs["input_changed"]:
+        return {"expected": "arrays passed in are left untouched", "observed": obs, "tags": dict(tags0, site="input_mutated")}
+    if not obs["value"] <= 1e-8:
+        return {"expected": "each call equals the independent reference whatever was called before (other maps, n, dtypes)",
+                "observed": obs, "tags": dict(tags0, site="cross_call")}
+    if not obs["after_mutation"] <= 1e-8:
+        return {"expected": "mutating a returned array does not change later results", "observed": obs, "tags": dict(tags0, site="output_aliased")}
+    if not obs["scale"] <= 1e-8:
+        return {"expected": "Ad(sA) = Ad(A), irrep(sA) = s^(n-1) irrep(A) for extreme s", "observed": obs, "tags": dict(tags0, site="scale")}
+    return None
+
+
 def gen_pglform(rng, n):
     for _ in range(n):
         kind = rng.choice(["diag", "generic", "orthogonal"])
@@ -983,6 +1180,11 @@ CLAUSES = [
            budget={"quick": 400, "thorough": 10000},
            what="f(A·B) = f(A)·f(B), f(1) = 1 for every map (irrep n=1..6, so21, gln/sln adjoint n=2..6, slc_to_slr, block_include, "
                 "sl2c_to_so31; direct and via lie.hom), single matrices and arrays of matrices, arrays = unit-by-unit"),
+    Clause("isolation_oracle", "oracle", gen_iso, run_iso, judge_iso, site="lie.* / lie.hom.* (histories)",
+           budget={"quick": 150, "thorough": 3000},
+           what="generic defences G2-G4: histories of 4-8 calls of different Lie maps / n / dtypes (float64, complex128, int64, "
+                "float32, non-contiguous views) interleaved in random order, each compared with an independent reference written in the "
+                "harness; inputs snapshotted; returned arrays mutated in place and the call repeated; extreme scalings 1e±100"),
     Clause("hom_history_oracle", "oracle", gen_homhist, run_homhist, judge_homhist, site="lie.hom.* wrapper objects",
            budget={"quick": 250, "thorough": 5000},
            what="one lie.hom wrapper object per case, reused over a history of 3-6 calls with the optional inverse omitted / given by "
